@@ -47,6 +47,37 @@ def conv_form(ret):
     return None
 
 
+def _total_test(c):
+    """c tests whether the total of an image (the input or its blur) vanishes -> the polarity of c under which it does"""
+    a = c.single_atom() if isinstance(c, Poly) else None
+    if a is None:
+        return None
+
+    def is_total(v):
+        va = v.single_atom() if isinstance(v, Poly) else None
+        return va is not None and is_app(va, ('sum', 'any', 'count_nonzero', 'amax'))
+    if is_total(c):
+        return False                    # `if total:` - taken when it does not vanish
+    if is_app(a, ('eq', 'le', 'lt')) and len(a[2]) == 2 and all(isinstance(x, Poly) for x in a[2]):
+        l, r = a[2]
+        if is_total(l) and r.is_zero():
+            return True if a[1] in ('eq', 'le') else None        # total == 0, total <= 0
+        if is_total(r) and l.is_zero():
+            return True if a[1] == 'eq' else False               # 0 < total, 0 <= total (the latter says nothing)
+    return None
+
+
+def _total_state(p):
+    """'zero' / 'nonzero' / None: what the path conditions say about the total that the result is rescaled with"""
+    for c, pol, _ in p.conds:
+        t = _total_test(c)
+        a = c.single_atom() if isinstance(c, Poly) else None
+        if t is None or (a is not None and is_app(a, 'le') and a[2][0].is_zero()):
+            continue
+        return 'zero' if bool(pol) == t else 'nonzero'
+    return None
+
+
 def run(chk, repo, tier):
     from .common import no_hidden_state
     no_hidden_state(chk, repo, 'C19')
@@ -58,7 +89,7 @@ def run(chk, repo, tier):
     chk.clause('C19-c', 'output = |ifft2(fft2(img) * kernel)| with a kernel that depends on the image shape only', 3)
     chk.clause('C19-d', 'unit gain at zero frequency and identity at zero extent (DC-vanishing argument, extent factor)', 5)
     chk.clause('C19-e', 'Gaussian constant exp(-2*pi^2*sigma^2*rho^2); extents enter as (extent/pixelscale)*oversample', 3)
-    chk.clause('C19-f', 'jitter/smear rescale so that the total equals the input total', 2)
+    chk.clause('C19-f', 'jitter/smear rescale so that the total equals the input total, and never divide by a vanishing total', 4)
     chk.clause('C19-h', 'pixelate = pixel blur followed by flux-preserving rescale by 1/oversample', 1)
     chk.clause('C19-s', 'no blur mixes two different axes of the image (shape inference over detector/convolvable)', 1)
     chk.not_decided += ['equality with the exact circular convolution', 'treatment of the unpaired Nyquist sample']
@@ -71,7 +102,9 @@ def run(chk, repo, tier):
     rnd = [p for p in returns(sp) if any(is_app(a, 'random.uniform') for a in nf.value_atoms(p.ret))]
     det_ = [p for p in returns(sp) if p not in rnd]
     want_c = nf.app('is', S('angle'), nf.Poly.atom(('val', nf.NONE)))
-    g_ok = len(rnd) == 1 and len(det_) == 1 and [(c, pol) for c, pol, _ in rnd[0].conds] == [(want_c, True)]
+    # (a guard on the total of the blurred image splits either case in two without changing which direction is used)
+    g_ok = bool(rnd) and bool(det_) and all([(c, pol) for c, pol, _ in q.conds if _total_test(c) is None] == [(want_c, True)]
+                                            for q in rnd)
     chk.ob('C19-g', 'D-guard', fs.key, 'random direction exactly when angle is None', g_ok,
            'random path taken when ' + '; '.join(conds_str(p) for p in rnd) + ' (a truthiness test would also discard angle=0)',
            fs.loc())
@@ -204,6 +237,27 @@ def run(chk, repo, tier):
                 # C19-f: ret = out * sum(img)/sum(out)
                 out = absatom
                 c = p.ret / out
+                state = _total_state(p)
+                # `sum(out) or 1`, `max(sum(out), tiny)`: the total where it does not vanish, something harmless where it does
+                total = nf.app('sum', out)
+                safe = {a: total for a in nf.value_atoms(c) if is_app(a, ('or', 'max', 'maximum', 'fmax')) and len(a[2]) == 2
+                        and total in a[2] and any(isinstance(x, Poly) and (x.const_value() or 0) > 0 for x in a[2])}
+                if safe:
+                    c = nf.subst_value(c, safe)
+                    state = 'nonzero'
+                if state == 'zero':
+                    # the blurred image is identically zero (it is a modulus): it is returned as it is, with total 0
+                    okf = c == Poly.const(1) or (isinstance(p.ret, Poly) and p.ret.is_zero())
+                    chk.ob('C19-f', 'N-identity', key, f'an image without signal comes back unscaled [{tag[:60]}]', okf,
+                           f'result = out * {fmt(c)[:160]}', f.loc(p.node))
+                    continue
                 okf = c * nf.app('sum', out) == nf.app('sum', S('img'))
-                chk.ob('C19-f', 'N-identity', key, f'sum(result) = sum(img) [{tag}]', okf,
+                chk.ob('C19-f', 'N-identity', key, f'sum(result) = sum(img) [{tag[:60]}]', okf,
                        f'result = out * {fmt(c)[:160]}', f.loc(p.node))
+                divides = any(a == nf.app('sum', out).single_atom() and ex < 0 for m, _ in c.terms for a, ex in m) \
+                    if isinstance(c, Poly) else False
+                chk.ob('C19-f', 'D-guard', key, f'the total divided by is known not to be zero [{tag[:60]}]',
+                       (state == 'nonzero') if divides else None,
+                       'guarded by the path condition' if state == 'nonzero' else
+                       'out * sum(img) / sum(out) is evaluated for every image: an all-zero frame (no signal) gives 0/0 = NaN in every '
+                       'pixel instead of the zero frame', f.loc(p.node))
